@@ -1183,6 +1183,11 @@ def renamers(tier):
         T("r_calc_not_boolvar", calc(gt(), [(None, "Me_9", unop("not", "bool_var"))]), 2),
         T("r_filter_intvar", filter_(unop("length", "DS_S"), binop(">", "int_var", 1)), 2),
         T("r_keep_boolvar", keep(calc(gt(), [(None, "Me_9", const(1))]), ["Me_9"]), 2),
+        # operators that promote Integer to Number keep the measure name (an implicit promotion is not a change of type)
+        T("r_filter_on_div", filter_(binop("/", "DS_4", 2), binop(">", "Me_1", 0)), 2),
+        T("r_calc_on_ln", calc(unop("ln", "DS_4"), [(None, "Me_9", binop("+", "Me_1", 1))]), 2),
+        T("r_rename_on_div", rename(binop("/", "DS_4", 2), [("Me_1", "Me_7")]), 2),
+        T("r_keep_on_sqrt", keep(calc(unop("sqrt", "DS_4"), [(None, "Me_9", binop("*", "Me_1", 2))]), ["Me_1"]), 2),
     ]
     out["c03"] += [
         T("r_sum_of_length", agg("sum", unop("length", "DS_S"), "group by", ["Id_1"]), 3),
